@@ -8,7 +8,9 @@ Inductive op20 :=
 | OProbe (client : nat) (ca : string) (ok : bool). (* the client built at the client-th load opened a new connection to the server of CA ca *)
 Record case20 := { k_files : list (string * string); k_settings : list settings; k_ops : list op20 }.
 
-Definition pem_ok (s : string) : bool := String.eqb s "PEM-A" || String.eqb s "PEM-B".
+(* usable PEM contents of the harness: the two CAs and bundles of them *)
+Definition pem_ok (s : string) : bool :=
+  negb (String.eqb s "") && forallb (fun p => String.eqb p "PEM-A" || String.eqb p "PEM-B") (split_on "+"%char s).
 Definition lres_eqb (a b : lres) : bool :=
   match a, b with LNil, LNil | LErr, LErr => true | LObj i, LObj j => Nat.eqb i j | _, _ => false end.
 Definition dflt_settings : settings := {| ts_ca := ""; ts_file := ""; ts_skip := None; ts_interval := 0; ts_interval_str := "0s" |}.
@@ -30,7 +32,7 @@ Definition ref_wait (fs : list (string * string)) (rc : refc) : refc :=
     end
   else rc.
 Definition ref_trusts (rc : refc) (ca : string) : bool :=
-  rc_insecure rc || match rc_extra rc with Some p => String.eqb p ca | None => false end.
+  rc_insecure rc || match rc_extra rc with Some p => existsb (String.eqb ca) (split_on "+"%char p) | None => false end.
 (* a later load of DIFFERENT settings that watches the same file (the known way a watcher is lost) *)
 Definition superseded (rcs : list refc) (k : nat) : bool :=
   match nth_error rcs k with
